@@ -872,7 +872,9 @@ def gen_session(ctx, thorough):
         prog = g.program()
         specialise(prog, rng)
         n = len(prog["pool"])
-        if 1 <= n <= 16:
+        # no division: instance reads of a session evaluate arithmetic priors at the inferred values (a zero divisor is
+        # an error of the instance, not of prior passing; division is covered by the stateless cases at a probe vector)
+        if 1 <= n <= 16 and '"op": "/"' not in json.dumps(prog["root"]):
             break
     pool = prog["pool"]
     c = {"kind": "session", "program": prog}
@@ -1250,7 +1252,9 @@ def run(ctx):
                 "constants, arithmetic priors; uniform, gaussian and log-uniform priors; some priors carrying their own width modifier) x one "
                 "passing mode (default widths from the prior config, absolute a, relative r, no_limits, bounded b, with_limits, replacing a "
                 "subset by new or existing priors, copy_with_fixed_priors) x inferred vectors of any sign and magnitude (inside limits, negative, "
-                "+-0, 1e+-300, 2^60, random) and of wrong length; half of the means/bounded cases also through af.Result. Non-trivial: >= 2 "
+                "+-0, 1e+-300, 2^60, random) and of wrong length; half of the means/bounded cases also through af.Result; plus session cases "
+                "(stateful results: reads of the joint result before / after child results are made by make_result / subsamples, then "
+                "prior passing from the child; non-trivial when the child has >= 2 parameters and something was read). Non-trivial: >= 2 "
                 "priors and at least one of shared prior, nesting, tuple, arithmetic, constant. Distinct = distinct (program, mode, values).")
     ctx.trusted = [
         "Coq 8.16.1 kernel incl. vm_compute; primitive floats (PrimFloat) are kernel primitives",
@@ -1412,7 +1416,59 @@ def check_sessions(ctx, sessions):
 
 def summary_sessions(ctx, sessions, results):
     """Correspondence of the Coq model of the samples summary (coq/C12/Session.v) with the vectors the child summary returned."""
-    return
+    if not os.path.exists(os.path.join(common.COQ, "C12", "Session.vo")):
+        ctx.obligation("correspondence:summaries", "correspondence", False, "Session.vo not built")
+        return
+    terms, idx = [], []
+    for i, (c, r) in enumerate(zip(sessions, results)):
+        term = coq_scase(c, r.get("ok") or {})
+        if term is not None:
+            terms.append(term)
+            idx.append(i)
+    if not terms:
+        return
+    bad, log = ctx.eval_cases(coq_header(ctx, ["Session"]), "scase", "check_scase", terms, tag="summaries", shard=40)
+    for b_ in (bad or [])[:5]:
+        i = idx[b_]
+        o = "; ".join(m for m, _ in session_oracle(sessions[i], results[i]["ok"]))
+        ctx.failure("correspondence", "session: the Coq model of the samples summary (reads, subsamples) disagrees with the best-fit vector "
+                    "the child summary returned" + (": " + o if o else ""), sessions[i],
+                    classes=[x for x in session_classes(sessions[i]) if x != "instance-cached-before-subsamples"],
+                    impl={"vec_maxl": results[i]["ok"].get("vec_maxl"), "chain": results[i]["ok"].get("chain")},
+                    broken={"kind": "correspondence", "name": "C12.check_scase"}, found_input=bool(o))
+
+
+PATH_READS = ("maxl_vec", "median_vec", "prior_means", "maxl_inst", "instance", "max_log_likelihood_instance", "paths", "model",
+              "model_absolute", "model_relative", "model_bounded")
+
+
+def coq_scase(c, r):
+    """Coq term of type `scase` (Session.v): the joint model, its best sample, the history, the chain of child models and
+    the vector the last child's summary returned."""
+    if "orig" not in r or "joint_tree" not in r:
+        return None
+    trees = [r["joint_tree"]] + list(r["chain_trees"])
+    if not all(MG.tree_ok_for_model(t) for t in trees):
+        return None
+    v = r["vec_maxl"]
+    if "ok" in v:
+        vec = "(Some %s)" % clist([cfloat(unhex(x)) for x in v["ok"]])
+    elif v.get("exc") == "KeyError":
+        vec = "None"
+    else:
+        return None
+    before, made = [], False
+    for t, o in c["steps"]:
+        if t == "mk":
+            made = True
+        elif t == "P" and not made:
+            before.append(o)
+    pre_read = any(o in PATH_READS for o in before)
+    pre_inst = any(o in INSTANCE_READS for o in before)
+    mid_read = bool(c.get("chain_reads")) and len(r["chain_trees"]) > 1
+    kw = clist(["(%s, %s)" % (MG.coq_path(p), cfloat(unhex(x))) for p, x in r["kw_max"]])
+    return "(SCase %s %s %s %s %s %s %s)" % (MG.coq_node(trees[0]), kw, cbool(pre_read), cbool(pre_inst), cbool(mid_read),
+                                             clist([MG.coq_node(t) for t in trees[1:]]), vec)
 
 
 MANIFEST = {
@@ -1426,11 +1482,20 @@ MANIFEST = {
             "width; an unshared parameter is configured under its own (class, attribute), a shared one under class and name of its last place "
             "(repaired a8a9b5b; legacy witness kept); with_limits by family incl. log-gaussian (repaired d755794). Tied to the code by bit-exact vm_compute correspondence of the passed model, its priors and "
             "exceptions on generated compositions x modes x vectors of any sign/magnitude, plus a direct property oracle (incl. the "
-            "af.Result routes, non-float constants of collections, where a tightened prior maps the unit interval)",
+            "af.Result routes, non-float constants of collections, where a tightened prior maps the unit interval). Results as stateful "
+            "objects (coq/C12/Session.v: SamplesSummary with its `_paths` / `_instance` caches, reads, subsamples; theorems: cache invariant "
+            "over every sequence of reads and child creations, history-irrelevance of the child's best-fit vector and prior means, child "
+            "instance partial + refuted): session cases = joint models made by FreeParameterAnalysis.modify_model / collections / a "
+            "component whose parameters the joint model also exposes under each other's names x random reads of the joint result "
+            "(max_log_likelihood, median_pdf, prior_means, instance, model, model_absolute/relative/bounded, paths, names, subsamples of a "
+            "sibling) before and after the child results are made (make_result of IndexCollection / FreeParameter analyses or subsamples, "
+            "chains of depth 2) x reads of the child x the passing mode on the child; oracle by parameter identity against the joint "
+            "vector, CPass correspondence on the child model, check_scase correspondence of the summary model",
     "note": "Trusted: Coq kernel + vm_compute; translator; harness abstraction of live objects; config table read by the harness. Known "
-            "finding (suppressed, narrow class): bounded-absorbed; the pinned cases of the eight repaired "
+            "findings (suppressed, narrow classes): bounded-absorbed; subsamples-keeps-parent-instance (child.instance after the joint "
+            "result's instance was read first; proposed_fixes/C12-subsamples-resets-instance.diff); the pinned cases of the eight repaired "
             "findings are regression obligations. Not modelled: AnnotationPriorModel, Array models, deferred arguments, "
             "subtraction / negated priors, excluded_classes of copy_with_fixed_priors, the message object of a prior (oracle only), "
-            "Result.model caching, jax; arithmetic theorems are over exact rationals, binary64 only on a stated grid and by correspondence.",
+            "name-keyed (samples.csv) samples in sessions, Samples.subsamples (full sample lists), jax; arithmetic theorems are over exact rationals, binary64 only on a stated grid and by correspondence.",
     "technique": "machine-checked proof in Coq (hand-written model over the C01 tree + translated leaf formulas) + vm_compute correspondence",
 }
